@@ -164,12 +164,24 @@ NoDupKeys(ps) == \A i, j \in 1..Len(ps) : ps[i][1] = ps[j][1] => i = j
 \* value seen through such a copy is live, by design (AssociationLike.SetValue
 \* is the documented in-place update).  Such copies are therefore projected
 \* with the value masked; membership, order and keys are what they fix.
+\*
+\* Every *token* is an integer (TLC cannot compare an integer with a tuple):
+\* an association token is the code ACode(k, v); the nil association is Z.
+\* Catalogs, Maps and Go maps keep their associations as a sequence of
+\* <<key, value>> pairs in their own field s (structure, not tokens).
 Masked == -1
-Mask(ps) == [i \in 1..Len(ps) |-> <<ps[i][1], Masked>>]
-\* what a pointer-copying consumer sees of an object
-View(o) == IF o.kind = "Catalog" THEN Mask(o.s) ELSE o.s
-\* what a value-reading consumer sees
+ACode(k, v) == 1000 + 32 * k + (v + 1)         \* v in -1..30
+AKey(t) == (t - 1000) \div 32
+AVal(t) == ((t - 1000) % 32) - 1
+Codes(ps) == [i \in 1..Len(ps) |-> ACode(ps[i][1], ps[i][2])]
+Mask(ps) == [i \in 1..Len(ps) |-> ACode(ps[i][1], Masked)]
+IsAssocKind(o) == o.kind \in {"Catalog", "Map", "GoMap"}
+\* what a pointer-copying consumer sees of an object (a token sequence)
+View(o) == IF o.kind = "Catalog" THEN Mask(o.s) ELSE IF IsAssocKind(o) THEN Codes(o.s) ELSE o.s
+\* what a consumer of plain tokens sees
 Elems(o) == o.s
+\* what a value-reading consumer of associations sees (pairs)
+PairsOf(o) == IF IsAssocKind(o) THEN o.s ELSE [i \in 1..Len(o.s) |-> <<AKey(o.s[i]), AVal(o.s[i])>>]
 
 ----------------------------------------------------------------------------
 (* Set helpers *)
@@ -386,10 +398,10 @@ OutsClass(w, e) ==
              {New(w, MkQueue(Elems(w[a[1]]), c, FALSE)) : c \in CapChoices(Len(Elems(w[a[1]])))}
       [] e.k = "Catalog" /\ e.m = "Make"           -> {New(w, MkCatalog(<<>>))}
       [] e.k = "Catalog" /\ e.m \in {"MakeFromArray", "MakeFromSequence"}
-                                                   -> {New(w, MkCatalog(CatPutAll(<<>>, Elems(w[a[1]]))))}
-      [] e.k = "Catalog" /\ e.m = "Merge"          -> {New(w, MkCatalog(CatPutAll(Elems(w[a[1]]), Elems(w[a[2]]))))}
+                                                   -> {New(w, MkCatalog(CatPutAll(<<>>, PairsOf(w[a[1]]))))}
+      [] e.k = "Catalog" /\ e.m = "Merge"          -> {New(w, MkCatalog(CatPutAll(w[a[1]].s, w[a[2]].s)))}
       [] e.k = "Catalog" /\ e.m = "Extract" ->
-             LET c == Elems(w[a[1]])  ks == Elems(w[a[2]])
+             LET c == w[a[1]].s  ks == Elems(w[a[2]])
                  F[i \in 0..Len(ks)] ==
                      IF i = 0 THEN <<>>
                      ELSE IF HasKey(c, ks[i]) /\ ~HasKey(F[i - 1], ks[i])
@@ -397,7 +409,7 @@ OutsClass(w, e) ==
              {New(w, MkCatalog(F[Len(ks)]))}
       [] e.k = "Map" /\ e.m = "Make"               -> {New(w, MkMap("Map", <<>>))}
       [] e.k = "Map" /\ e.m \in {"MakeFromArray", "MakeFromSequence", "MakeFromMap"}
-                                                   -> {New(w, MkMap("Map", MapOf(Elems(w[a[1]]))))}
+                                                   -> {New(w, MkMap("Map", MapOf(PairsOf(w[a[1]]))))}
 
 \* --- dispatch ---------------------------------------------------------------
 SequentialM == {"AsArray", "GetIterator", "GetSize", "IsEmpty"}
@@ -459,11 +471,11 @@ AcceptsRel(w, e, o) ==
                 Ascending(IF e.k = "Catalog" THEN Keys(o.w[e.self].s) ELSE o.w[e.self].s, e.args[1])
       [] e.k = "Catalog" /\ e.m = "MakeFromMap" ->
            /\ o.r = ObjR(Len(w) + 1) /\ OneNew(w, o.w)
-           /\ LET t == o.w[Len(w) + 1] IN t = MkCatalog(t.s) /\ IsPerm(t.s, Elems(w[e.args[1]]))
+           /\ LET t == o.w[Len(w) + 1] IN t = MkCatalog(t.s) /\ IsPerm(t.s, w[e.args[1]].s)
       [] e.k = "Map" /\ e.m \in {"GetKeys", "AsArray", "GetIterator"} ->
            /\ o.r = ObjR(Len(w) + 1) /\ OneNew(w, o.w)
            /\ LET t == o.w[Len(w) + 1]
-                  want == IF e.m = "GetKeys" THEN Keys(w[e.self].s) ELSE w[e.self].s IN
+                  want == IF e.m = "GetKeys" THEN Keys(w[e.self].s) ELSE Codes(w[e.self].s) IN
               /\ IsPerm(t.s, want)
               /\ t = (IF e.m = "GetKeys" THEN MkSeq("Seq", t.s)
                       ELSE IF e.m = "AsArray" THEN MkSeq("GoArray", t.s) ELSE MkIter(t.s, 0))
@@ -480,10 +492,10 @@ Gen(w, e) ==
            {Ret(None, Upd(w, e.self, With(o,
                  IF e.args[1] \notin Preorders THEN o.s
                  ELSE IF e.k = "Catalog" THEN SortPairsBy(o.s, e.args[1]) ELSE SortBy(o.s, e.args[1]))))}
-      [] e.k = "Catalog" /\ e.m = "MakeFromMap" -> {New(w, MkCatalog(Elems(w[e.args[1]])))}
+      [] e.k = "Catalog" /\ e.m = "MakeFromMap" -> {New(w, MkCatalog(w[e.args[1]].s))}
       [] e.k = "Map" /\ e.m = "GetKeys" -> {New(w, MkSeq("Seq", Keys(o.s)))}
-      [] e.k = "Map" /\ e.m = "AsArray" -> {New(w, MkSeq("GoArray", o.s))}
-      [] e.k = "Map" /\ e.m = "GetIterator" -> {New(w, MkIter(o.s, 0))}
+      [] e.k = "Map" /\ e.m = "AsArray" -> {New(w, MkSeq("GoArray", Codes(o.s)))}
+      [] e.k = "Map" /\ e.m = "GetIterator" -> {New(w, MkIter(Codes(o.s), 0))}
 
 ----------------------------------------------------------------------------
 (* Type invariants of objects: evaluated on every projected real state.     *)
